@@ -109,9 +109,9 @@ def check_closure(R, wsdl_bytes, ir, repro):
             if (ns, l) not in table and what == 'part_element' and header_also_bare(ir, l):
                 R.violation('%s="%s": the class is used as a SOAP header and as a bare message; its own global element is not published' % (attr, one),
                             repro, mech='header_class_also_bare_message_loses_element')
-            elif (ns, l) not in table and what == 'schema_base' and l.endswith('_dataType'):
-                R.violation('%s="%s": the simple type of a customized XmlData member is not published' % (attr, one), repro,
-                            mech='xmldata_customized_type_not_published')
+            elif (ns, l) not in table and what == 'schema_base' and etree.QName(node.getparent()).localname == 'simpleContent':
+                R.violation('%s="%s": the simple type of an XmlData member is not published' % (attr, one), repro,
+                            mech='xmldata_type_not_published')
             elif (ns, l) not in table:
                 R.violation('%s="%s" on <%s> does not resolve to a %s definition in the document ({%s}%s)' % (
                     attr, one, etree.QName(node).localname, space, ns, l), repro, mech='qname_unresolved:%s:%s' % (what, space))
@@ -277,13 +277,14 @@ def check_zeep(R, seed, uid, ir, tier, repro):
 
 
 def zeep_load_kind(e, ir=None):
-    s = str(e)
     import re
+    s = str(e)
     m = re.search(r"No definition '\{[^}]*\}(\w+)' in 'messages'", s)
     if m and ir is not None and header_also_bare(ir, m.group(1)):
         return 'header_class_also_bare_message_loses_element'
-    if '_dataType' in s and 'Unable to resolve type' in s:
-        return 'xmldata_customized_type_not_published'
+    m2 = re.search(r"Unable to resolve type \{[^}]*\}(\w+)", s) if 'Unable to resolve type' in s else None
+    if m2 and ir is not None and any('xmldata' in ft for t in ir['types'] for _, ft in t['fields']):
+        return 'xmldata_type_not_published'
     if 'No definition' in s and 'messages' in s:
         return 'message_not_found'
     return type(e).__name__
